@@ -88,7 +88,6 @@ def run(R, env):
     tested = [s_ for c_, p_ in _iw(prog, h, 2) for _, atom in c_.atoms() if atom[0] == "bool" for s_ in subterms(atom[1])]
     seenP = any(isP(s_) for s_ in tested)
     seenN = any(isN(s_) for s_ in tested)
-    R.ob("C03.R2", "LiquidStake:recipient-classified-by-both-prefixes", seenP and seenN, "the recipient is not tested with validate_address against the protocol prefix (%s) and the native prefix (%s)" % (seenP, seenN), fn=hk)
     TABLE = [((True, False, None), "bank"), ((False, True, None), "ibc"), ((True, True, False), "bank"), ((True, True, True), "ibc"), ((False, False, None), "none")]
     flagf = lambda t: shared.msg_field(t, "LiquidStake", "transfer_to_native_chain")
     flagv = lambda t: t[0] == "payload" and flagf(t[1])
@@ -114,6 +113,10 @@ def run(R, env):
         succ = bool(success_exits(w))
         got = "none" if not succ else ("bank" if nb and not ni else "ibc" if ni and not nb else "both" if nb and ni else "neither")
         verdict.setdefault((p_, n_, f_), (want, []))[1].append(got)
+    # the recipient is classified by both prefixes: seen as tests in the handler / its helpers, or established by the
+    # truth table itself (the worlds differ only in the two validity assumptions and their deliveries differ as required)
+    table_ok = all((gots[0] if len(set(gots)) == 1 else "/".join(gots)) == want for (want, gots) in verdict.values())
+    R.ob("C03.R2", "LiquidStake:recipient-classified-by-both-prefixes", (seenP and seenN) or table_ok, "the recipient is not tested with validate_address against the protocol prefix (%s) and the native prefix (%s)" % (seenP, seenN), fn=hk)
     for (p_, n_, f_), (want, gots) in verdict.items():
         got = gots[0] if len(set(gots)) == 1 else "/".join(gots)
         R.ob("C03.R2", "LiquidStake:arm:protocol=%s,native=%s,to_native=%s" % (p_, n_, f_), got == want, "recipient valid on protocol chain=%s / native chain=%s, transfer_to_native_chain=%s: delivery is `%s`, expected `%s`" % (p_, n_, f_, got, want), fn=hk)
